@@ -80,7 +80,9 @@ def replay_case(arg):
     def fail(clause, manifestation, detail):
         fails.append(dict(case=dict(config=rec), clause=clause, manifestation=manifestation, detail=detail, features=feats))
     times = [0.5 * t for t in rec['times']]
-    times_in = list(times)
+    # the requested times arrive as a list or -- every other case -- as a NumPy array (which an in-place operation of the
+    # callee would alter in the caller's hands)
+    times_in = np.array(times) if int(key, 16) % 2 == 0 else list(times)
     tag = 'pr' + key
     try:
         with warnings.catch_warnings():
@@ -148,8 +150,8 @@ def replay_case(arg):
         fail('Evaluable', type(e).__name__, repr(e))
         return fails, cnt
     cnt['evaluations'] = 1
-    if times_in != times:
-        fail('NoInputWrite', 'times_modified', None)
+    if list(times_in) != times:
+        fail('NoInputWrite', 'times_modified', dict(passed_as=type(times_in).__name__, now=list(times_in), before=times))
     # ---- labels ---------------------------------------------------------------------------
     got = table_labels(df, obs_names)
     exp = [[l[0], 0.5 * l[1], l[2]] for l in rec['labels']]
